@@ -120,4 +120,62 @@ def Judge.observeOut (j : Judge) (mac : Mac) (target : Option Backend) (random b
     else if j.seenRandoms.contains random then (j', "violated:outgoing-random-reused")
     else (j', "ok")
 
+
+/-! ### "that backend's secret": the configuration in force
+
+A backend's secret is the `secret` of its own section, else the common `[backend] secret` **of the same file**; a
+backend that has neither is not a configured backend.  After a reload the file in force is the one loaded last —
+nothing of an earlier file remains. -/
+
+def specSecrets (f : SecretFile) : List Backend :=
+  f.backends.filterMap fun r =>
+    let s := if r.secret.isEmpty then f.common else r.secret
+    if s.isEmpty then none else some ⟨r.id, s⟩
+
+/-- The configuration in force after starting with `f0` and reloading `fs` in turn. -/
+def fileInForce (f0 : SecretFile) (fs : List SecretFile) : SecretFile := (f0 :: fs).getLast (by simp)
+
+/-! ### "every request the server sends to a backend carries … the matching checksum under that backend's secret"
+
+One `PerformJSONRequest` may put several requests on the wire (redirects).  Each of them that carries a checksum
+is a request sent to the backend its URL belongs to. -/
+
+/-- Scheme and host (name and port) of a URL, as components. -/
+def origin (u : List Char) : List (List Char) := (components u).take 3
+
+/-- A request as a (fake) backend received it. -/
+structure Recv where
+  url : List Char
+  post : Bool            -- still a POST (else the GET a 301/302/303 made of it)
+  random : Bytes
+  body : Bytes
+  checksum : Bytes
+  deriving Repr
+
+/-- A request that followed a redirect: fine iff the URL it went to belongs to a backend whose secret made the checksum
+it carries (over the body it carries; over the body of the first request if the redirect dropped the body). -/
+def redirectedOk (mac : Mac) (es : List Entry) (body0 : Bytes) (r : Recv) : Bool :=
+  (owners es r.url).any fun b =>
+    stmtChecksum mac b.secret r.random (if r.body.isEmpty then body0 else r.body) == r.checksum
+
+def redirectVerdicts (mac : Mac) (es : List Entry) (body0 : Bytes) : List Char → List Recv → String
+  | _, [] => "ok"
+  | prev, r :: rest =>
+    if redirectedOk mac es body0 r then redirectVerdicts mac es body0 r.url rest
+    else if origin r.url == origin prev then "violated:redirect-within-origin-leaves-backend-url"
+    else "violated:signed-request-redirected-to-another-origin"
+
+/-- Verdict on everything one outgoing request put on the wire.  `target` = the backend the first URL belongs to;
+`byUrl` = the configuration consists of backends with URLs (else only the first request is judged). -/
+def Judge.observeDeliveries (j : Judge) (mac : Mac) (es : List Entry) (byUrl : Bool) (target : Option Backend)
+    (rs : List Recv) : Judge × String :=
+  match rs with
+  | [] => (j, if target.isNone then "ok" else "violated:no-request-sent")
+  | r0 :: rest =>
+    let (j', v0) := j.observeOut mac target r0.random r0.body r0.checksum
+    if v0 != "ok" then (j', v0)
+    else if !r0.post then (j', "violated:first-request-is-not-a-post")
+    else if !byUrl then (j', "ok")
+    else (j', redirectVerdicts mac es r0.body r0.url rest)
+
 end SigModel.Checksum
